@@ -57,7 +57,8 @@ def run(ck, prog, ctx):
               "%s tests the ontology's %s roots against %s%s" % (owner, s["root"], " ∪ ".join(s["fields"]), "" if s["inclusive"] else
                                                                  ": the term's own id is missing, so a %s root itself is not recognised (is_modifier() is true for it)" % s["root"]),
               where=b.where(s["term"].line))
-    ck.floor("SIBLING", "modifier/category membership sites", len(sites), 3)
+    # (the two HpoTerm predicates may share one private helper: fewer sites, same coverage - `site-present` below checks each user)
+    ck.floor("SIBLING", "modifier/category membership sites", len(sites), 3, soft=bool(sites))
     sub0 = prog.body(SUB)
     helpers_of_sub = set()
     if sub0 is not None:
@@ -68,6 +69,15 @@ def run(ck, prog, ctx):
                     helpers_of_sub.add(tg_.short)
     for need in ("HpoTerm::<'a>::is_modifier", "HpoTerm::<'a>::categories", "Ontology::sub_ontology"):
         present = need in owners or (need == "Ontology::sub_ontology" and bool(owners & helpers_of_sub))
+        if not present and need != "Ontology::sub_ontology":
+            # the predicate may call a private helper of HpoTerm that holds the test
+            nb_ = prog.body("term::hpoterm::" + need)
+            if nb_ is not None:
+                for fb_ in prog.family(nb_):
+                    for _, t_ in fb_.calls():
+                        tg_ = prog.bodies.get(t_.callee.res) if t_.callee.res else None
+                        if tg_ is not None and not tg_.reachable and tg_.short in owners:
+                            present = True
         if not present and need == "Ontology::sub_ontology":
             ck.undecided("SIBLING", "site-present/" + need, "no modifier membership test located in sub_ontology or its private helpers (different idiom?)")
             continue
@@ -152,20 +162,36 @@ def run(ck, prog, ctx):
     getters = set()
     muts = set()
     news = 0
+    # the copy may be made in a private helper of sub_ontology; the accessors of the internal term are recognised by the FIELD they
+    # hand out, not by their name
+    scan = list(fam)
     for fb in fam:
+        for _, t in fb.calls():
+            tg = prog.bodies.get(t.callee.res) if t.callee.res else None
+            if tg is not None and tg.kind in ("Fn", "AssocFn") and not tg.reachable and not tg.impl_trait and tg.file == sub.file and tg not in scan:
+                scan += [x for x in prog.family(tg) if x not in scan]
+    acc_field = {}
+    for ab in prog.production():
+        if ab.kind == "AssocFn" and (ab.impl_self or {}).get("adt") == "term::internal::HpoTermInternal" and ab.nargs == 1 and not ab.natural_loops() and len(ab.reach) <= 4:
+            fl = {a[2] for a in pv.of_return(ab) if a[0] == "field" and a[1] == "term::internal::HpoTermInternal"}
+            if len(fl) == 1:
+                acc_field[ab.id] = (next(iter(fl)), "&mut" in ab.locals[0]["s"])
+    for fb in scan:
         for bi, t in fb.calls():
             r = t.callee.res or ""
-            if r.startswith("term::internal::HpoTermInternal::"):
-                nm = r.rsplit("::", 1)[-1]
-                if nm in ("name", "id", "obsolete", "replacement"):
+            if r in acc_field:
+                nm, is_mut = acc_field[r]
+                if not is_mut and nm in ("name", "id", "obsolete", "replacement"):
                     getters.add(nm)
-                if nm in ("obsolete_mut", "replacement_mut"):
+                if is_mut and nm in ("obsolete", "replacement"):
                     # result must be written through
                     dl = t.dest.local
                     written = any(s.k == "assign" and "*" in s.place.fields() and s.place.local in (dl,) for _, s in fb.stmts()) or any(
                         s.k == "assign" and "*" in s.place.fields() and any(a[0] == "call" and a[4] == bi for a in pvn.of_local(fb, s.place.local)) for _, s in fb.stmts())
                     if written:
-                        muts.add(nm)
+                        muts.add(nm + "_mut")
+            if r.startswith("term::internal::HpoTermInternal::"):
+                nm = r.rsplit("::", 1)[-1]
                 if nm == "new":
                     news += 1
                     a0 = pv.of_operand(fb, t.args[0])
